@@ -49,29 +49,34 @@ structure RS where
   calls : Nat
   dead : Bool
 
+def rsFin {α : Type} (s : RS) (op : String) (x : M α) (ok : α → RS) : RS :=
+  match x.1 with
+  | .ok a => let s' := ok a; { s' with calls := s.calls + x.2 }
+  | .err .fuel => { s with out := "hang" :: s.out, calls := s.calls + x.2, dead := true }
+  -- after an error the real range may have advanced part-way: only `skip` leaves it untouched
+  | .err e => { s with out := ((op.take 1).toString ++ "=" ++ showErr e) :: s.out, calls := s.calls + x.2,
+                       dead := (op.take 1).toString != "s" }
+  | .panic w => { s with out := ("!" ++ w) :: s.out, calls := s.calls + x.2, dead := true }
+
 def rsStep (m : Mode) (s : RS) (op : String) : RS :=
   if s.dead then s else
-  let fin {α : Type} (x : M α) (ok : α → RS) : RS :=
-    match x.1 with
-    | .ok a => let s' := ok a; { s' with calls := s.calls + x.2 }
-    | .err .fuel => { s with out := "hang" :: s.out, calls := s.calls + x.2, dead := true }
-    -- after an error the real range may have advanced part-way: only `skip` leaves it untouched
-    | .err e => { s with out := ((op.take 1).toString ++ "=" ++ showErr e) :: s.out, calls := s.calls + x.2,
-                         dead := (op.take 1).toString != "s" }
-    | .panic w => { s with out := ("!" ++ w) :: s.out, calls := s.calls + x.2, dead := true }
   let arg := (op.drop 1).toString
   match (op.take 1).toString with
-  | "r" => fin (Range.read m s.d.prov s.r (nat! arg)) fun res =>
+  | "r" => rsFin s op (Range.read m s.d.prov s.r (nat! arg)) fun res =>
       { s with r := res.2, out := ("r=" ++ hexOrDash res.1) :: s.out }
-  | "x" => fin (Range.readExact m s.d.prov s.r (nat! arg)) fun res =>
+  | "x" => rsFin s op (Range.readExact m s.d.prov s.r (nat! arg)) fun res =>
       { s with r := res.2, out := ("x=" ++ hexOrDash res.1) :: s.out }
-  | "b" => fin (Range.readByte m s.d.prov s.r) fun res =>
+  | "b" => rsFin s op (Range.readByte m s.d.prov s.r) fun res =>
       { s with r := res.2, out := ("b=" ++ hexBytes [res.1]) :: s.out }
-  | "s" => fin (Range.skip m s.r (nat! arg)) fun r' => { s with r := r', out := "s=ok" :: s.out }
-  | "w" => fin (Range.write m s.d s.r (hex! arg)) fun res =>
-      { s with r := res.2.1, d := res.2.2, out := s!"w={res.1}" :: s.out }
-  | "a" => fin (Range.writeAll m s.d s.r (hex! arg)) fun res =>
-      { s with r := res.1, d := res.2, out := "a=ok" :: s.out }
+  | "s" => rsFin s op (Range.skip m s.r (nat! arg)) fun r' => { s with r := r', out := "s=ok" :: s.out }
+  | "w" =>
+    let x := Range.write m s.d s.r (hex! arg)
+    let s := { s with d := x.2 }
+    rsFin s op x.1 fun res => { s with r := res.2, out := s!"w={res.1}" :: s.out }
+  | "a" =>
+    let x := Range.writeAll m s.d s.r (hex! arg)
+    let s := { s with d := x.2 }
+    rsFin s op x.1 fun r' => { s with r := r', out := "a=ok" :: s.out }
   | "p" => { s with out := s!"p={s.r.pos}.{s.r.endp}" :: s.out }
   | _ => { s with out := "bad-op" :: s.out }
 
@@ -108,9 +113,9 @@ def runQuery (m : Mode) (d : Dev) (q : String) : String × Dev :=
   | ["alias"] => (showM (stationAlias m p) fun v => s!"v.{v}", d)
   | ["setalias", v] =>
     let x := setStationAlias m { d with log := [] } (nat! v)
-    match x.1 with
-    | .ok d' => ("ok|W" ++ showLog d'.log ++ s!"#{x.2}", d')
-    | _ => (showM x fun _ => "", d)
+    match x.1.1 with
+    | .ok _ => ("ok|W" ++ showLog x.2.log ++ s!"#{x.1.2}", x.2)
+    | _ => (showM x.1 (fun _ => "") , x.2)
   | ["size"] => (showM (size m p) fun v => s!"v.{v}", d)
   | ["id"] => (showM (identity m p) fun (a, b, c, e) => "v." ++ dots [a, b, c, e], d)
   | ["mbox"] => (showM (mailboxConfig m p) fun mb =>
